@@ -72,159 +72,3 @@ func VerifC01Window() {
 	}
 	verifReach("end")
 }
-
-// C01-O1: step characterisation of nextServer from an arbitrary iterator state, 31-bit
-// symbolic weights, arbitrary positive step g (weightGcd is stubbed: the behaviour of one
-// step does not depend on g being the gcd; VerifC01Window ties it to the real gcd).
-//   phase 1: indices after `index` (when index >= 0) at the current level cw;
-//   otherwise the level drops by g (or restarts at max when that is <= 0) and the sweep
-//   restarts at index 0. The first server whose weight reaches the level in force is returned.
-func VerifC01Step() {
-	n := verifParam("n")
-	r, _ := New(nil)
-	g := verifInt("g")
-	verifAssume(verifAnd(g >= 1, g < 1<<31))
-	verifStub("(*github.com/vulcand/oxy/v2/roundrobin.RoundRobin).weightGcd", func(rr *RoundRobin) int { return g })
-	w := make([]int, n)
-	max := 0
-	for i := 0; i < n; i++ {
-		w[i] = verifInt(verifName("w", i))
-		verifAssume(verifAnd(w[i] >= 0, w[i] < 1<<31))
-		max = verifIteInt(w[i] > max, w[i], max)
-		r.servers = append(r.servers, &server{url: &url.URL{Host: verifName("s", i)}, weight: w[i]})
-	}
-	verifAssume(max > 0)
-	idx := verifInt("index")
-	verifAssume(verifAnd(idx >= -1, idx < n))
-	idx = verifConcretize(idx, -1, n-1)
-	cw := verifInt("cw")
-	verifAssume(verifAnd(cw >= 0, cw <= max))
-	// iterator invariant: currentWeight is 0 only in the reset state (index -1); every step
-	// establishes 0 < currentWeight <= max (asserted below), reset re-establishes (-1, 0)
-	verifAssume(verifImp(cw == 0, idx == -1))
-	r.index, r.currentWeight = idx, cw
-
-	srv, err := r.nextServer()
-
-	// reference, branch-free
-	found1, j1 := false, 0
-	if idx >= 0 {
-		for i := n - 1; i > idx; i-- {
-			hit := w[i] >= cw
-			j1 = verifIteInt(hit, i, j1)
-			found1 = verifOr(found1, hit)
-		}
-	}
-	level2 := verifIteInt(cw-g <= 0, max, cw-g)
-	j2 := 0
-	for i := n - 1; i >= 0; i-- {
-		j2 = verifIteInt(w[i] >= level2, i, j2)
-	}
-	wantJ := verifIteInt(found1, j1, j2)
-	wantLevel := verifIteInt(found1, cw, level2)
-	verifAssert("step-no-error", err == nil)
-	if err == nil {
-		got := -1
-		for i := 0; i < n; i++ {
-			if srv == r.servers[i] {
-				got = i
-			}
-		}
-		verifAssert("step-returns-first-qualifying-server", got == wantJ)
-		verifAssert("step-level", r.currentWeight == wantLevel)
-		verifAssert("step-index", r.index == got)
-		verifAssert("step-invariant", verifAnd(r.currentWeight > 0, r.currentWeight <= max))
-		verifAssert("step-weight-reaches-level", srv.weight >= r.currentWeight)
-	}
-	verifAssert("lock-released", verifLocksHeld() <= 0)
-	verifReach("end")
-}
-
-// C01-O3: the step used by the sweep is the greatest common divisor of the weights: the real
-// weightGcd on n servers with symbolic weights in [0,M] (not all zero) returns g >= 1 that
-// divides every weight and is a multiple of every common divisor d in [2,M]. Together with
-// O1 (one step for an arbitrary g) this ties the level arithmetic to gcd for weights beyond
-// the window bound of O2.
-func VerifC01Gcd() {
-	n := verifParam("n")
-	M := verifParam("M")
-	r, _ := New(nil)
-	w := make([]int, n)
-	sum := 0
-	for i := 0; i < n; i++ {
-		w[i] = verifInt(verifName("w", i))
-		verifAssume(verifAnd(w[i] >= 0, w[i] <= M))
-		sum += w[i]
-		r.servers = append(r.servers, &server{url: &url.URL{Host: verifName("s", i)}, weight: w[i]})
-	}
-	verifAssume(sum > 0)
-	g := r.weightGcd()
-	verifAssert("gcd-positive", g >= 1)
-	if g < 1 {
-		verifStop()
-	}
-	div := true
-	for i := 0; i < n; i++ {
-		div = verifAnd(div, w[i]%g == 0)
-	}
-	verifAssert("gcd-divides-every-weight", div)
-	greatest := true
-	for d := 2; d <= M; d++ {
-		all := true
-		for i := 0; i < n; i++ {
-			all = verifAnd(all, w[i]%d == 0)
-		}
-		greatest = verifAnd(greatest, verifImp(all, g%d == 0))
-	}
-	verifAssert("gcd-is-greatest", greatest)
-	verifReach("end")
-}
-
-// C01-O4: selections made by two callers at once are the next two selections of the
-// sequence, in some order. Two concurrent NextServer calls (the second running to completion
-// at any one lock boundary of the first) on a pool with symbolic weights after a symbolic
-// warm-up, against a twin balancer that makes the same selections sequentially: the pair
-// chosen is the twin's next pair, and the selection after it is the twin's third.
-func VerifC01Concurrent() {
-	n := verifParam("n")
-	w := make([]int, n)
-	sum := 0
-	for i := 0; i < n; i++ {
-		w[i] = verifConcretize(verifInt(verifName("w", i)), 0, 3)
-		sum += w[i]
-	}
-	if sum == 0 {
-		verifStop()
-	}
-	warm := verifConcretize(verifInt("warm"), 0, 3)
-	build := func() *RoundRobin {
-		r, _ := New(nil)
-		for i := 0; i < n; i++ {
-			u := &url.URL{Scheme: "http", Host: verifName("s", i)}
-			_ = r.UpsertServer(u, Weight(1))
-			_ = r.UpsertServer(u, Weight(w[i]))
-		}
-		for k := 0; k < warm; k++ {
-			_, _ = r.NextServer()
-		}
-		return r
-	}
-	ok := verifConcurrent("selections", 100000, func() (func(), func(), func() bool) {
-		r, twin := build(), build()
-		var a, b *url.URL
-		return func() { a, _ = r.NextServer() }, func() { b, _ = r.NextServer() }, func() bool {
-			t1, _ := twin.NextServer()
-			t2, _ := twin.NextServer()
-			t3, _ := twin.NextServer()
-			c, _ := r.NextServer()
-			if a == nil || b == nil || c == nil || t1 == nil || t2 == nil || t3 == nil {
-				return false
-			}
-			pair := (a.Host == t1.Host && b.Host == t2.Host) || (a.Host == t2.Host && b.Host == t1.Host)
-			return pair && c.Host == t3.Host
-		}
-	})
-	verifAssert("concurrent-selections-are-the-next-two", ok)
-	verifAssert("lock-released", verifLocksHeld() <= 0)
-	verifReach("end")
-}
